@@ -22,6 +22,21 @@
 (* MaxConnLifetime after its creation however busy it is.  That costs      *)
 (* reuse, not safety, and is specified as it is.                           *)
 (* Time is abstract: one unit = the harness clock step.                    *)
+(*                                                                         *)
+(* The context of a Get (constant Ctxs, per call):                         *)
+(*   live   never cancelled                                                *)
+(*   dead   cancelled / past its deadline before the call                  *)
+(*   probe  cancelled while the first connection taken from the bucket is  *)
+(*          being probed (Usable(): the caller gave up during the RSET     *)
+(*          round trip); dead from then on                                 *)
+(*   nonew  live, but a new connection cannot be established (dial error)  *)
+(* As in the code the context only matters to cfg.New: a pooled connection *)
+(* that passes the tests is handed out whatever the context says; when a   *)
+(* new connection is needed and the context is dead (or the dial fails)    *)
+(* Get returns an error and the caller holds nothing (GetFail).  Whatever  *)
+(* Get does with a dead context, a connection it took out of a bucket must *)
+(* still be handed out or closed (PoolObs: it stays "idle" otherwise and   *)
+(* is a leak at shutdown).                                                 *)
 (***************************************************************************)
 EXTENDS PoolObs, TLC, Json, SequencesExt
 
@@ -31,6 +46,7 @@ CONSTANTS NWorkers, Keys, MaxPerKey, MaxKeys,
           Period,    \* clean-up ticker period
           MaxTime, Rounds, MaxBreaks,
           WithClose, \* set of BOOLEAN: scenarios with / without pool.Close
+          Ctxs,      \* contexts a Get may be called with, subset of {"live", "dead", "probe", "nonew"}
           Devs, Gen, DelayBound
 
 WorkerSeq == [i \in 1..NWorkers |-> "w" \o ToString(i)]
@@ -43,7 +59,7 @@ NoB == [ch |-> 0, lastUse |-> 0]
 VARIABLES cfg, now,
           keys, keysNil, chans,
           cst, cusable, clast, nconn,
-          wpc, wkey, wch, wcur, wheld, wleft,
+          wpc, wkey, wch, wcur, wheld, wleft, wctx,
           spc, tickPending, nextTick,
           ppc,
           async, breaks,
@@ -52,7 +68,7 @@ VARIABLES cfg, now,
 
 poolV == <<keys, keysNil, chans>>
 connV == <<cst, cusable, clast, nconn>>
-workV == <<wpc, wkey, wch, wcur, wheld, wleft>>
+workV == <<wpc, wkey, wch, wcur, wheld, wleft, wctx>>
 sweepV == <<spc, tickPending, nextTick>>
 schedV == <<hist, cur, delays>>
 vars == <<cfg, now, poolV, connV, workV, sweepV, ppc, async, breaks, ended, obs, schedV>>
@@ -66,6 +82,7 @@ InitWith(c) ==
   /\ wpc = [w \in Workers |-> "idle"] /\ wkey = [w \in Workers |-> CHOOSE k \in Keys : TRUE]
   /\ wch = [w \in Workers |-> 0] /\ wcur = [w \in Workers |-> ""] /\ wheld = [w \in Workers |-> ""]
   /\ wleft = [w \in Workers |-> IF w \in c.workers THEN Rounds ELSE 0]
+  /\ wctx = [w \in Workers |-> "live"]
   /\ spc = "s0" /\ tickPending = FALSE /\ nextTick = 0
   /\ ppc = IF c.close THEN "pc0" ELSE "none"
   /\ async = {} /\ breaks = 0
@@ -93,8 +110,16 @@ StaleKeys == {k \in Live : keys[k].lastUse + cfg.stale <= now}
 
 (* ------------------------------------------------------------------------ *)
 (* workers                                                                   *)
-Fresh(w, o, dead) ==
+\* cfg.New(ctx, key): a new connection, or an error when the context is dead / the dial fails
+\* (cx = the state of the caller's context at this point)
+Fresh(w, o, dead, cx) ==
   LET c == ConnSeq[nconn + 1] IN
+  IF cx \in {"dead", "nonew"}
+  THEN /\ cst' = [x \in Conns |-> IF x \in dead THEN "closed" ELSE cst[x]]
+       /\ UNCHANGED <<nconn, clast, cusable, wheld>>
+       /\ wpc' = [wpc EXCEPT ![w] = "idle"] /\ wcur' = [wcur EXCEPT ![w] = ""]
+       /\ obs' = ObsGetFail(o, w)
+  ELSE
   /\ nconn' = nconn + 1
   /\ cst' = [x \in Conns |-> IF x = c THEN "open" ELSE IF x \in dead THEN "closed" ELSE cst[x]]
   /\ clast' = [clast EXCEPT ![c] = now] /\ UNCHANGED cusable
@@ -106,6 +131,7 @@ WGetCall(w, k) ==
   /\ wpc[w] = "idle" /\ wheld[w] = "" /\ wleft[w] > 0
   /\ wpc' = [wpc EXCEPT ![w] = "g1"] /\ wkey' = [wkey EXCEPT ![w] = k]
   /\ wleft' = [wleft EXCEPT ![w] = @ - 1]
+  /\ \E cx \in Ctxs : wctx' = [wctx EXCEPT ![w] = cx]
   /\ obs' = ObsGetCall(obs, w, now)
   /\ UNCHANGED <<cfg, now, poolV, connV, wch, wcur, wheld, sweepV, ppc, async, breaks, ended>>
 
@@ -113,43 +139,50 @@ WGetLock(w) ==
   /\ wpc[w] = "g1"
   /\ LET k == wkey[w] b == keys[k] IN
      IF keysNil \/ b = NoB
-     THEN Fresh(w, obs, {}) /\ UNCHANGED <<poolV, wch>>
+     THEN Fresh(w, obs, {}, wctx[w]) /\ UNCHANGED <<poolV, wch>>
      ELSE IF now > b.lastUse + cfg.life
      THEN LET buf == chans[b.ch].buf IN
           /\ keys' = [keys EXCEPT ![k] = NoB] /\ UNCHANGED keysNil
           /\ IF buf = <<>>
              THEN /\ chans' = [chans EXCEPT ![b.ch] = [buf |-> <<>>, closed |-> TRUE]]
-                  /\ Fresh(w, obs, {}) /\ UNCHANGED wch
+                  /\ Fresh(w, obs, {}, wctx[w]) /\ UNCHANGED wch
              ELSE /\ chans' = [chans EXCEPT ![b.ch] = [buf |-> Tail(buf), closed |-> TRUE]]
                   /\ wpc' = [wpc EXCEPT ![w] = "gr"] /\ wcur' = [wcur EXCEPT ![w] = Head(buf)]
                   /\ wch' = [wch EXCEPT ![w] = b.ch]
                   /\ UNCHANGED <<connV, wheld, obs>>
      ELSE /\ wpc' = [wpc EXCEPT ![w] = "g2"] /\ wch' = [wch EXCEPT ![w] = b.ch]
           /\ UNCHANGED <<poolV, connV, wcur, wheld, obs>>
-  /\ UNCHANGED <<cfg, now, wkey, wleft, sweepV, ppc, async, breaks, ended>>
+  /\ UNCHANGED <<cfg, now, wkey, wleft, wctx, sweepV, ppc, async, breaks, ended>>
 
 \* drain loop of the expired bucket: conn.Close(), then the next receive
 WGetRange(w) ==
   /\ wpc[w] = "gr"
   /\ LET c == wcur[w] buf == chans[wch[w]].buf o1 == ObsConnClose(obs, c, FALSE) IN
      IF buf = <<>>
-     THEN /\ Fresh(w, o1, {c})
+     THEN /\ Fresh(w, o1, {c}, wctx[w])
           /\ UNCHANGED <<poolV, wch>>
      ELSE /\ chans' = [chans EXCEPT ![wch[w]].buf = Tail(buf)]
           /\ wcur' = [wcur EXCEPT ![w] = Head(buf)]
           /\ cst' = [cst EXCEPT ![c] = "closed"] /\ obs' = o1
           /\ UNCHANGED <<keys, keysNil, cusable, clast, nconn, wpc, wch, wheld>>
-  /\ UNCHANGED <<cfg, now, wkey, wleft, sweepV, ppc, async, breaks, ended>>
+  /\ UNCHANGED <<cfg, now, wkey, wleft, wctx, sweepV, ppc, async, breaks, ended>>
 
 WGetSel(w) ==
   /\ wpc[w] = "g2"
   /\ LET buf == chans[wch[w]].buf IN
-     IF buf = <<>> THEN Fresh(w, obs, {}) /\ UNCHANGED <<poolV, wch>>
-     ELSE LET c == Head(buf) IN
+     IF buf = <<>> THEN Fresh(w, obs, {}, wctx[w]) /\ UNCHANGED <<poolV, wch, wctx>>
+     ELSE LET c == Head(buf)
+              \* the connection is probed (Usable): a "probe" context is cancelled meanwhile
+              cx == IF wctx[w] = "probe" THEN "dead" ELSE wctx[w] IN
           /\ chans' = [chans EXCEPT ![wch[w]].buf = Tail(buf)] /\ UNCHANGED <<keys, keysNil, wch>>
+          /\ wctx' = [wctx EXCEPT ![w] = cx]
           /\ IF ~Usable(c) \/ ("NoLifetimeTest" \notin Devs /\ clast[c] + cfg.life < now)
              THEN /\ wpc' = [wpc EXCEPT ![w] = "g3"] /\ wcur' = [wcur EXCEPT ![w] = c]
                   /\ UNCHANGED <<connV, wheld, obs>>
+             ELSE IF "CtxDropsConn" \in Devs /\ cx = "dead"
+             \* broken design: Get gives up on the dead context and forgets the connection it took
+             THEN /\ wpc' = [wpc EXCEPT ![w] = "idle"] /\ obs' = ObsGetFail(obs, w)
+                  /\ UNCHANGED <<connV, wheld, wcur>>
              ELSE /\ wpc' = [wpc EXCEPT ![w] = "idle"] /\ wheld' = [wheld EXCEPT ![w] = c]
                   /\ obs' = ObsGetReturn(obs, w, c, FALSE, now, cfg.life)
                   /\ clast' = [clast EXCEPT ![c] = now]
@@ -160,13 +193,13 @@ WGetGo(w) ==
   /\ wpc[w] = "g3"
   /\ async' = async \cup {wcur[w]}
   /\ wpc' = [wpc EXCEPT ![w] = "g2"] /\ wcur' = [wcur EXCEPT ![w] = ""]
-  /\ UNCHANGED <<cfg, now, poolV, connV, wkey, wch, wheld, wleft, sweepV, ppc, breaks, ended, obs>>
+  /\ UNCHANGED <<cfg, now, poolV, connV, wkey, wch, wheld, wleft, wctx, sweepV, ppc, breaks, ended, obs>>
 
 WRetCall(w) ==
   /\ wpc[w] = "idle" /\ wheld[w] # ""
   /\ wpc' = [wpc EXCEPT ![w] = "r1"]
   /\ obs' = ObsReturnCall(obs, w, wheld[w])
-  /\ UNCHANGED <<cfg, now, poolV, connV, wkey, wch, wcur, wheld, wleft, sweepV, ppc, async, breaks, ended>>
+  /\ UNCHANGED <<cfg, now, poolV, connV, wkey, wch, wcur, wheld, wleft, wctx, sweepV, ppc, async, breaks, ended>>
 
 \* the delivery closes the connection itself instead of returning it
 WDrop(w) ==
@@ -174,7 +207,7 @@ WDrop(w) ==
   /\ cst' = [cst EXCEPT ![wheld[w]] = "closed"]
   /\ obs' = ObsConnClose(obs, wheld[w], TRUE)
   /\ wheld' = [wheld EXCEPT ![w] = ""]
-  /\ UNCHANGED <<cfg, now, poolV, cusable, clast, nconn, wpc, wkey, wch, wcur, wleft, sweepV, ppc, async, breaks, ended>>
+  /\ UNCHANGED <<cfg, now, poolV, cusable, clast, nconn, wpc, wkey, wch, wcur, wleft, wctx, sweepV, ppc, async, breaks, ended>>
 
 \* Return: the whole body under the lock
 WRetLock(w) ==
@@ -202,7 +235,7 @@ WRetLock(w) ==
              /\ obs' = ObsReturnReturn(ObsCloseSeq(obs, dead), w)
              /\ UNCHANGED keysNil
   /\ wpc' = [wpc EXCEPT ![w] = "idle"] /\ wheld' = [wheld EXCEPT ![w] = ""]
-  /\ UNCHANGED <<cfg, now, cusable, clast, nconn, wkey, wch, wcur, wleft, sweepV, ppc, breaks, ended>>
+  /\ UNCHANGED <<cfg, now, cusable, clast, nconn, wkey, wch, wcur, wleft, wctx, sweepV, ppc, breaks, ended>>
 
 WorkerStep(w) == (\E k \in Keys : WGetCall(w, k)) \/ WGetLock(w) \/ WGetRange(w) \/ WGetSel(w)
                  \/ WGetGo(w) \/ WRetCall(w) \/ WDrop(w) \/ WRetLock(w)
@@ -302,7 +335,8 @@ Cost(i) == Cardinality({j \in 1..NT : TaskEn(j) /\ j # i /\
 Label(i) ==
   IF i <= NWorkers
   THEN LET w == WorkerSeq[i] IN
-       IF wpc[w] = "idle" /\ wpc'[w] = "g1" THEN w \o ":get:" \o wkey'[w]
+       IF wpc[w] = "idle" /\ wpc'[w] = "g1"
+       THEN w \o ":get:" \o wkey'[w] \o (IF wctx'[w] = "live" THEN "" ELSE ":" \o wctx'[w])
        ELSE IF wpc[w] = "idle" /\ wpc'[w] = "r1" THEN w \o ":ret"
        ELSE IF wpc[w] = "idle" THEN w \o ":drop"
        ELSE w
